@@ -55,6 +55,16 @@ SEEDS = {
  "seed3-C14": dict(property="C14", also=[], needs="a /* */ comment spanning several lines above a block opener or after a keyword: format_comment prefixes '# ' to anything its regex (no DOTALL) does not recognise as a complete comment"),
  "seed3-C15": dict(property="C15", also=[], needs="an included file containing a quoted string that spans lines, pulled in by an indented INCLUDE line: the expanded text is re-indented with textwrap.indent before the splice"),
  "seed3-C16": dict(property="C16", also=[], needs="a FEATURE with two or more POINTS blocks and indent > 0: format_repeated_pair_list recurses with level + 1, every repeated block is printed one level too deep"),
+ "seed4-C02": dict(property="C02", also=[], needs="a PROJECTION string whose content is itself wholly wrapped in the other quote character (PROJECTION \"'init=epsg:4326'\" END): the is_string guard of attr() removed, so the list already cleaned by projection() is cleaned again (the mechanism of seed-C02, found again independently in round 4)"),
+ "seed4-C04": dict(property="C04", also=["C10", "C01"], needs="an EXPRESSION/TEXT expression containing a single-quoted literal with an unbalanced ')' inside ('a) primary'): is_group no longer treats ' as a string delimiter, so the group test fails and every load/dump pass adds one more pair of parentheses"),
+ "seed4-C06": dict(property="C06", also=["C16", "C01"], needs="align_values=True, a key longer than 16 characters (LABELMAXSCALEDENOM, BACKGROUNDSHADOWSIZE) with an unquoted value, and an indent for which the value column computed from the shorter keys equals that key's length exactly (indent 6 with MAXSCALEDENOM, 5 with BACKGROUNDCOLOR ...): compute_max_key_length ignores long keys and __format_line tests > instead of >= (two cooperating sites); key and value are glued"),
+ "seed4-C09": dict(property="C09", also=[], needs="a LAYER with a CLUSTER block validated at a version below 6.0: schema tidy-up in layer.json, allOf:[{$ref}] + metadata rewritten as $ref + metadata; jsonref drops the siblings of a $ref, so the minVersion annotation never reaches the version filter (connectionoptions, changed the same way, stays right because the referenced file repeats the annotation)"),
+ "seed4-C10": dict(property="C10", also=["C01"], needs="explicit parentheses around a sum/product whose first and last operands are both padded groups ((([a] % 2) + ([b] % 3))): a shortcut in is_group returns True for any text that starts with '( ' and ends with ' )', cooperating with the comparison builder that writes % operands as padded groups; the explicit parentheses are dropped and operands regroup"),
+ "seed4-C11": dict(property="C11", also=[], needs="an unterminated quoted string containing a run of 30+ backslashes: an 'escaped backslash' alternative added to both string terminals overlaps the single-character alternative, rejection time grows exponentially (the mechanism of seed-C11, found again independently in round 4)"),
+ "seed4-C17": dict(property="C17", also=[], needs="a dict holding an EMPTY list or dict (an auto-created layers/classes list), deep-copied while it is still empty, then mutated in place through either side: __deepcopy__ rewritten entry by entry with 'deepcopy(value) if value else value', so falsy containers are shared"),
+ "seed4-C18": dict(property="C18", also=[], needs="update() with a patch that APPENDS an item past the end of a list of dicts: the appended element is the patch's own dict (aliasing, visible only after a second update through one of the two maps) and its nested None placeholders / __delete__ items are no longer normalised"),
+ "seed4-C19": dict(property="C19", also=["C03", "C01"], needs="one dumps call in which LAYER GROUP (plain string) is printed before a nested CLUSTER GROUP (expression): get_attribute_properties memoised per keyword name only (the mechanism of seed3-C01/seed3-C03, found again independently in round 4 and offered for C19); checked with C03, the property whose obligation it fails", check="C03"),
+ "seed4-C20": dict(property="C20", also=["C12", "C15"], needs="one process, the same path rewritten within the same wall-clock second with new content of exactly the same UTF-8 byte length, then opened again: open_file keeps a module-level text cache keyed by (abspath, int(mtime), size)"),
 }
 
 def main():
@@ -66,7 +76,7 @@ def main():
             continue
         conf = open(os.path.join(d, "confirmation.txt")).read().strip() if os.path.exists(os.path.join(d, "confirmation.txt")) else ""
         meta = dict(id=sid, breaks_property=m["property"], related_properties=m["also"], needs_to_manifest=m["needs"],
-                    origin="written by an independent sub-agent that saw only the property text and a scratch worktree of /repo" + (" (round 2: also told which function the round-1 change had touched, to pick a different mechanism)" if sid.startswith("seed2") else " (round 3: told both earlier mechanisms)" if sid.startswith("seed3") else ""),
+                    origin="written by an independent sub-agent that saw only the property text and a scratch worktree of /repo" + (" (round 2: also told which function the round-1 change had touched, to pick a different mechanism)" if sid.startswith("seed2") else " (round 3: told both earlier mechanisms)" if sid.startswith("seed3") else " (round 4: told nothing but the property text; asked for a less-trodden function)" if sid.startswith("seed4") else ""),
                     confirmed=conf,
                     what_was_run=["tools/confirm_seed.sh: scratch copy of /repo; demo.py exit 0 without the patch, exit 1 with it; full test-suite with the patch",
                                   "tools/try_seed.sh patch.diff <properties>: the registered quick checks with VERIF_REPO pointing at a scratch copy with the patch applied"],
